@@ -540,6 +540,8 @@ def gen_cases(rng, tier, ctx):
     if tier == 'thorough':
         cases.extend(_enum_small())
         cases.extend(_enum_loops())
+        for c in _enum_small():          # the same exhaustive shapes, call by call on the instrumented builder
+            cases.append(dict(c, kind='trace'))
     else:
         small = _enum_small()
         rng.shuffle(small)
@@ -810,7 +812,7 @@ def to_coq(case, obs):
         o = 'None' if a is None else '(Some (%s, %s))' % (g_q(a['dur']), g_windows(a['ws']))
         return '(CRw %s %s %s %s %s %s)' % (vlib.gbool(case.get('side') == 'spec'), X.g_rw(case['op']), g_loop(case['loop']), g_q(obs['dur0']),
                                          g_windows(obs['ws0']), o)
-    if kind == 'flat':
+    if kind == 'flat' or 'trace_unavailable' in obs:
         return 'CPyOnly'
     if kind == 'trace' and 'trace' in obs:
         tr = vlib.glist(lambda ev: '(%s, %s)' % (g_ev(ev[0]), vlib.glist(lambda b: vlib.glist(g_frame, b), ev[1])),
@@ -878,6 +880,8 @@ def histogram_keys(case, obs):
     keys = [case['kind'], 'obs:' + ('rejected:' + obs['rejected'] if 'rejected' in obs else
                                     'none' if obs.get('none') else
                                     'crash' if 'crash' in obs or 'hang' in obs else 'program')]
+    if 'trace_unavailable' in obs:
+        keys.append('trace:UNAVAILABLE (builder internals differ from the instrumentation)')
     if kind == 'trace' and 'trace' in obs:
         keys.append('trace-len:%s' % ('0' if not obs['trace'] else '1-5' if len(obs['trace']) <= 5 else
                                       '6-20' if len(obs['trace']) <= 20 else '21+'))
